@@ -110,9 +110,23 @@ func TestWriterPreference(t *testing.T) {
 	// a blocked Lock call excludes new readers (as sync.RWMutex documents)
 	c := &cell{}
 	var order []string
-	r1 := func() { c.mu.RLock(); Step("hold"); Step("hold"); Step("hold"); order = append(order, "r1-out"); c.mu.RUnlock() }
+	r1 := func() {
+		c.mu.RLock()
+		Step("hold")
+		Step("hold")
+		Step("hold")
+		order = append(order, "r1-out")
+		c.mu.RUnlock()
+	}
 	w := func() { Step("w"); c.mu.Lock(); order = append(order, "w"); c.mu.Unlock() }
-	r2 := func() { Step("a"); Step("b"); Step("c"); c.mu.RLock(); order = append(order, "r2"); c.mu.RUnlock() }
+	r2 := func() {
+		Step("a")
+		Step("b")
+		Step("c")
+		c.mu.RLock()
+		order = append(order, "r2")
+		c.mu.RUnlock()
+	}
 	// r1 takes the read lock, w blocks on Lock, then r2 tries RLock: it must wait for w
 	s := run(Config{Strategy: "replay", Choices: []int{0, 0, 1, 1, 1, 2, 2, 2, 2, 2, 0, 0, 0, 0}}, r1, w, r2)
 	if s.Deadlock {
@@ -159,5 +173,30 @@ func TestPoolHandOffOrders(t *testing.T) {
 		if len(s.Races) > 0 {
 			t.Fatalf("Put happens before the Get that returns the item: %+v", s.Races)
 		}
+	}
+}
+
+func TestForeignCriticalSections(t *testing.T) {
+	found := 0
+	for seed := uint64(0); seed < 50; seed++ {
+		api := func() { Step("a"); Foreign("api"); Step("b"); Foreign("api") }
+		if s := run(Config{Strategy: "random", Seed: seed}, api, api, api); len(s.Races) > 0 {
+			t.Fatalf("seed %d: calls into the foreign library are ordered by its own mutex: %+v", seed, s.Races)
+		}
+		direct := func() { Step("a"); Foreign("api"); ForeignAccess("Call.ReturnArguments", true, "direct") }
+		if s := run(Config{Strategy: "random", Seed: seed}, direct, api); len(s.Races) > 0 {
+			found++
+		}
+	}
+	// unordered unless every library call of the other task happened before this task's own
+	// (then the write is ordered after them through the library's mutex)
+	if found < 25 {
+		t.Fatalf("a direct write to foreign-owned state races with another task's later call into the library: reported in %d/50 schedules", found)
+	}
+	// the schedule in which the other task calls after the write
+	direct := func() { Foreign("api"); ForeignAccess("Call.ReturnArguments", true, "direct") }
+	late := func() { Step("a"); Step("b"); Step("c"); Foreign("api") }
+	if s := run(Config{Strategy: "replay", Choices: []int{0, 0, 0, 1, 1, 1, 1, 1}}, direct, late); len(s.Races) == 0 {
+		t.Fatalf("write, then the other task's call: must be reported")
 	}
 }
